@@ -1,12 +1,12 @@
 import json, os, sys
 sys.path.insert(0, os.path.dirname(os.path.dirname(os.path.abspath(__file__))))
 import importlib
-from checks.registry import NOT_APPLICABLE, DISABLED
+from checks.registry import NOT_APPLICABLE, ENABLED
 CHECKS = {}
 for f in sorted(os.listdir("/verif/checks")):
     if f.startswith("c") and f.endswith(".py") and f[1:-3].isdigit():
         pid = f[:-3].upper()
-        if pid in DISABLED:
+        if pid not in ENABLED:
             continue
         mod = importlib.import_module("checks." + f[:-3])
         if hasattr(mod, "REGISTRY"):
